@@ -250,6 +250,19 @@ func runC08(e *Env) {
 		})
 		e.R.AddPart(ev.Part{Name: "wide-chords-x-tracks", Enumerated: fmt.Sprintf("user chords of 1, 16, 17, 32, 33 and %d tones x N in {1,2,3,16,17,32,33,40,256}, in-process and real binary", wideMax), Executions: int64(len(wjobs)), Exhaustive: true})
 	}
+	// track counts around what the 16-bit field of the header can state: refused, or a file that declares what it holds
+	var big []playCase
+	for _, n := range []int{32767, 32768, 32769, 65534, 65535, 65536, 65537, 70000, 131071} {
+		for _, path := range []string{"lib", "cli"} {
+			big = append(big, playCase{Path: path, Cfg: writeCfg{Tracks: n}, Insts: []refplay.Inst{shapes[0], {Values: one()}, shapes[1]}})
+		}
+	}
+	mc.ParFor(len(big), func(i int) {
+		c := big[i]
+		c08Eval(e, &c, true)
+		e.R.Trace(1)
+	})
+	e.R.AddPart(ev.Part{Name: "track-counts-at-the-header-limit", Enumerated: "--track 32767, 32768, 32769, 65534, 65535, 65536, 65537, 70000, 131071 (the header field has 16 bits), in-process and real binary: refused, or a strictly well-formed file with exactly that many chunks", Executions: int64(len(big)), Exhaustive: true})
 	runYAMLForms(e, "C08")
 	runLong(e, 16, func(c *playCase) {
 		for _, n := range []int{1, 3} {
